@@ -15,6 +15,7 @@ from leanio import parse_fields
 from rl import TensorDict, torch
 
 UNSET = -999999
+GEN_LOG: list = []  # (min_time, max_time, S, M, J, run_time) of every "genparam"/"gen" draw, judged by the units
 _ENVS: Dict[tuple, object] = {}
 
 
@@ -31,14 +32,32 @@ def perms(M: int) -> List[tuple]:
     return list(itertools.permutations(range(M)))
 
 
-KINDS = ["random", "ties", "skewed", "zero", "gen", "fast"]
+KINDS = ["random", "ties", "skewed", "zero", "gen", "fast", "hetero", "genparam", "large"]
 
 
 def gen_dur(rng, S, M, J, kind, env=None):
     MT = S * M
-    if kind == "gen":  # the repo's own generator (torch.randint(min_time, max_time))
+    if kind == "gen":  # the repo's own generator (torch.randint(min_time, max_time)) with the env's parameters
         torch.manual_seed(rng.randrange(1 << 30))
-        return env.generator(batch_size=[1])["run_time"][0].tolist()
+        rt = env.generator(batch_size=[1])["run_time"][0].tolist()
+        GEN_LOG.append((env.generator.min_time, env.generator.max_time, S, M, J, rt))
+        return rt
+    if kind == "genparam":  # the repo's generator at non-default (min_time, max_time)
+        from rl4co.envs.scheduling.ffsp.generator import FFSPGenerator
+
+        lo = rng.choice([0, 1, 2, 5])
+        hi = rng.choice([lo + 1, lo + 2, 10 + lo, 40 + lo])
+        torch.manual_seed(rng.randrange(1 << 30))
+        g = FFSPGenerator(num_stage=S, num_machine=M, num_job=J, min_time=lo, max_time=hi)
+        rt = g(batch_size=[1])["run_time"][0].tolist()
+        GEN_LOG.append((lo, hi, S, M, J, rt))
+        return rt
+    if kind == "hetero":  # one very slow machine per stage, the schedule can avoid it: unused entries dominate
+        slow = [rng.randrange(M) for _ in range(S)]
+        return [[(rng.randint(30, 60) if (m % M) == slow[m // M] else rng.randint(1, 3)) for m in range(MT)]
+                for _ in range(J)]
+    if kind == "large":  # larger magnitudes (kept moderate: the real loop iterates once per time unit and machine)
+        return [[rng.choice([1, 7, 40, 120]) for _ in range(MT)] for _ in range(J)]
     if kind == "ties":
         return [[rng.choice([1, 2]) for _ in range(MT)] for _ in range(J)]
     if kind == "skewed":  # one fast and several very slow machines per stage: waiting pays off
@@ -58,7 +77,8 @@ def gen_dur(rng, S, M, J, kind, env=None):
 
 def gen_inst(rng, S, M, J, kind=None, env=None) -> dict:
     kind = kind or rng.choice(KINDS)
-    return {"kind": kind, "S": S, "M": M, "J": J, "dur": gen_dur(rng, S, M, J, kind, env), "pomo": 0}
+    return {"kind": kind, "S": S, "M": M, "J": J, "dur": gen_dur(rng, S, M, J, kind, env), "pomo": 0,
+            "flat": bool(getattr(env, "flatten_stages", True)) if env is not None else True}
 
 
 def wf(inst) -> bool:
@@ -114,6 +134,7 @@ class Ep:
         self.steps = 0
         self.hung = False
         self.hung_in_step = False
+        self.crashed = None  # repr of an exception raised by the real env (reset / pre_step / step)
 
 
 def to_td(insts: List[dict]):
@@ -128,10 +149,16 @@ def run_real(env, insts: List[dict], choose, k: int = 1, forced: Optional[List[L
     `done.all()`.  Never steps a batch in which every row is finished."""
     from rl4co.utils.ops import batchify
 
-    td = env.reset(to_td(insts))
-    if k > 1:
-        td = batchify(td, k)
-        td = env.pre_step(td)
+    try:
+        td = env.reset(to_td(insts))
+        if k > 1:
+            td = batchify(td, k)
+            td = env.pre_step(td)
+    except Exception as e:  # the real env must not raise on a well-formed batch
+        ep = Ep(len(insts) * k)
+        ep.crashed = f"reset/pre_step: {type(e).__name__}: {e}"
+        ep.hung = True
+        return ep
     R = td.batch_size[0]
     ep = Ep(R)
     t = 0
@@ -141,7 +168,8 @@ def run_real(env, insts: List[dict], choose, k: int = 1, forced: Optional[List[L
         for r in range(R):
             ep.masks[r].append(rl.mask_str(mask[r]))
             ep.done[r].append(int(done[r]))
-            ep.clock[r].append(f"{int(td['time_idx'][r])}:{int(td['sub_time_idx'][r])}:{int(td['machine_idx'][r])}")
+            ep.clock[r].append(f"{int(td['time_idx'][r])}:{int(td['sub_time_idx'][r])}:{int(td['machine_idx'][r])}"
+                               f":{int(td['stage_idx'][r])}:{int(td['stage_machine_idx'][r])}")
         if bool(done.all()):
             break
         if t >= max_steps:
@@ -171,6 +199,10 @@ def run_real(env, insts: List[dict], choose, k: int = 1, forced: Optional[List[L
             ep.hung = True
             ep.hung_in_step = True
             break
+        except Exception as e:
+            ep.hung = True
+            ep.crashed = f"step {t}: {type(e).__name__}: {e}"
+            break
         ep.gflags.append(int(bool(td["done"].all())))
         t += 1
     ep.steps = t
@@ -191,7 +223,7 @@ def inst_sections(inst) -> str:
     S, M, J = inst["S"], inst["M"], inst["J"]
     dur = " ".join(str(d) for row in inst["dur"] for d in row)
     perm = " ".join(map(str, perms(M)[inst.get("pomo", 0)]))
-    return f"{S} {M} {J} | {dur} | {perm}"
+    return f"{S} {M} {J} {int(bool(inst.get('flat', True)))} | {dur} | {perm}"
 
 
 def episode_line(inst, actions, gflags) -> str:
@@ -232,7 +264,7 @@ def compare_row(ctx, inst, ep: Ep, r: int, reply: str, what: str, observables=("
             ctx.disagreement(f"ffsp: done differs ({what})", dict(det, real=ep.done[r], model=f["done"]))
     if "clock" in observables:
         if f["clock"].split(",") != ep.clock[r]:
-            ctx.disagreement(f"ffsp: clock (time:sub:machine) differs ({what})",
+            ctx.disagreement(f"ffsp: clock (time:sub:machine:stage:stage_machine) differs ({what})",
                              dict(det, real=ep.clock[r], model=f["clock"]))
         if f.get("fuelok") != "1":
             ctx.disagreement(f"ffsp: model ran out of fuel in moveLoop ({what})", det)
@@ -272,6 +304,53 @@ def judge_reward(ctx, inst, ep: Ep, r: int, f: dict, line: str):
                       + ("" if wf(inst) else " (a duration ≥ 999999 on an unused machine beats the 'unset' sentinel)"),
                       {"inst": inst, "actions": ep.actions[r], "real_reward": rr, "spec_makespan": int(f["mk"]),
                        "schedule": real_sched(ep.td, r), "lean_line": line})
+
+
+def judge_generator(ctx):
+    """every generator draw seen so far: `run_time` in [min_time, max_time), right shape, Lean-side WF"""
+    while GEN_LOG:
+        lo, hi, S, M, J, rt = GEN_LOG.pop()
+        ctx.count(f"ffsp.gen[min={lo},max={hi}]")
+        ok_shape = len(rt) == J and all(len(r) == S * M for r in rt)
+        vals = [d for r in rt for d in r]
+        if not ok_shape or any(not (lo <= d < hi) for d in vals):
+            ctx.violation("ffsp:generator-range", "FFSPGenerator: run_time outside [min_time, max_time) or wrong shape",
+                          {"min_time": lo, "max_time": hi, "shape": (S, M, J), "run_time": rt})
+        if hi <= -UNSET and not wf({"S": S, "M": M, "J": J, "dur": rt}):
+            ctx.violation("ffsp:generator-not-wf", "generated instance is not well-formed", {"run_time": rt})
+
+
+def check_tables(ctx, env, B: int, k: int):
+    """`IndexTables` of the env after a reset with batch size B (rows of a k-fold replicated batch): the
+    permutation table and `get_machine_index` / `get_stage_machine_index` vs the Lean model (`permsOf`,
+    `Tables.perm`, `pomoIdx`) and vs itertools."""
+    M, S = env.num_machine, env.num_stage
+    tb = env.tables
+    rows = list(range(B * k))
+    rep = parse_fields(ctx.driver.ask(f"ffsp.tables {M} {B} | " + " ".join(map(str, rows))))
+    lean_perms = [tuple(int(x) for x in p.split(",")) for p in rep["perms"].split(";")]
+    if lean_perms != perms(M):
+        ctx.disagreement("ffsp: permsOf differs from itertools.permutations", {"M": M, "lean": lean_perms})
+    real_tbl = [tuple(r[:M]) for r in tb.machine_table.tolist()]
+    if real_tbl != perms(M) or tb.bs != B:
+        ctx.disagreement("ffsp: IndexTables.machine_table / bs differ from the model", {"M": M, "B": B, "bs": tb.bs,
+                                                                                      "real": real_tbl})
+    lean_rows = [(int(x.split(":")[0]), tuple(int(v) for v in x.split(":")[1].split(","))) for x in rep["rows"].split(";")]
+    idx = torch.tensor(rows, dtype=torch.long)
+    for sub in range(M * S):
+        st = torch.full((len(rows),), sub, dtype=torch.long)
+        mi = tb.get_machine_index(idx, st).tolist()
+        smi = tb.get_stage_machine_index(idx, st).tolist()
+        for r in rows:
+            pomo, prm = lean_rows[r]
+            want = prm[sub % M] + M * (sub // M)
+            want_s = want if env.flatten_stages else prm[sub % M]
+            if mi[r] != want or smi[r] != want_s or pomo != r // B:
+                ctx.disagreement("ffsp: get_machine_index / get_stage_machine_index differ from the model",
+                                 {"M": M, "S": S, "B": B, "row": r, "sub": sub, "real": (mi[r], smi[r]),
+                                  "model": (want, want_s), "pomo_model": pomo, "flat": env.flatten_stages})
+                return
+    ctx.count("ffsp.tables-checked")
 
 
 # ---- exhaustive exploration of the real env (C05) --------------------------------------------------
